@@ -617,7 +617,12 @@ def rule_rot_hash(ctx) -> None:
     chk.decide(norm(A.returns_in(rc.node)[-1].value) == "self.rot_meta.calculate_hash()", "C15.rot-hash", rc.qual, "RSA credential hash is the RoT meta hash", norm(rc.node)[:100], "", A.loc(DC, rc.node))
     # (5) EdgeLock enclave: SRK table hash (decided under C06)
     ce = ctx.own(DC, "RotMetaEdgeLockEnclave", "calculate_hash")
-    chk.decide("return self.srk_table.compute_srk_hash()" in norm(ce.node), "C15.rot-hash", ce.qual, "ELE credentials use the AHAB SRK table hash (C06)", norm(ce.node)[:120], "", A.loc(DC, ce.node))
+    rets = [norm(r.value) for r in A.returns_in(ce.node)]
+    chk.decide(rets == ["self.srk_table.compute_srk_hash()"], "C15.rot-hash", ce.qual, "ELE credentials use the AHAB SRK table hash on every path - the value the image tools fuse (C06)", f"returns {rets}", "return self.srk_table.compute_srk_hash()", A.loc(DC, ce.node))
+    for cn2 in ("DebugCredentialEdgeLockEnclave", "DebugCredentialCertificateRsa"):
+        f2 = ctx.own(DC, cn2, "calculate_hash")
+        r2 = [norm(r.value) for r in A.returns_in(f2.node)]
+        chk.decide(r2 == ["self.rot_meta.calculate_hash()"], "C15.rot-hash", f2.qual, "the credential's hash is its RoT meta hash on every path", f"returns {r2}", "", A.loc(DC, f2.node))
     ee = ctx.own(DC, "RotMetaEdgeLockEnclave", "export")
     pe = ctx.own(DC, "RotMetaEdgeLockEnclave", "parse")
     ok = norm(A.returns_in(ee.node)[-1].value) == "self.flags.export() + self.srk_table.export()" and "flags = RotMetaFlags.parse(data[:4])" in norm(pe.node) and "srk_table = SRKTable.parse(data[4:])" in norm(pe.node)
